@@ -798,6 +798,36 @@ def sorted_stable(inp, out, keyf):
     return None
 
 
+def long_sort_law(rng, k):
+    n = 33 + rng.below(64)
+    if k % 2 == 0:
+        pool = [0.0, -0.0, 1.0, -1.0, 2.0] if k % 4 == 0 else [0.0, -0.0, 0.0, -0.0, 5.0, -3.0, 0.5]
+        l = L(*[N(rng.choice(pool)) for _ in range(n)])
+
+        def pred(res, l=l):
+            out = ok_tree(res[1])
+            inp = tree_of(l)
+            if out is None or out[0] != "L":
+                return "sort did not return a list"
+            if not is_perm(inp[1], out[1]):
+                return "sort result is not a permutation of its input"
+            return sorted_stable(inp[1], out[1], lambda x: x)
+        return Law("sort: stable permutation, non-decreasing (long list holding both zeros)",
+                   "l = %s\nsort(l)" % l.src(), pred)
+    l = L(*[R(("k", N(rng.choice([0.0, -0.0, 1.0, 2.0]))), ("id", N(float(i)))) for i in range(n)])
+
+    def pred2(res, l=l):
+        out = ok_tree(res[1])
+        inp = tree_of(l)
+        if out is None or out[0] != "L":
+            return "sort_by did not return a list"
+        if not is_perm(inp[1], out[1]):
+            return "sort_by result is not a permutation of its input"
+        return sorted_stable(inp[1], out[1], lambda x: dict(x[1])[b"k"])
+    return Law("sort_by: stable permutation ordered by key (long list, keys 0 / -0)",
+               "l = %s\nsort_by(l, x => x.k)" % l.src(), pred2)
+
+
 def gen_law(rng):
     r = rng.below(20)
     if r == 0:
@@ -1197,6 +1227,12 @@ def main(argv):
     if res.broken:
         nl *= 3
     laws = [gen_law(rng) for _ in range(nl)]
+    # LONG-SORT family (round 7, after seed C14-11: a numeric fast path through an unstable sort shows only on lists of
+    # 33 or more elements that hold both zeros): the sort / sort_by laws on lists of 33..96 elements drawn from pools
+    # whose members are equal but distinguishable (0 / -0; records with equal keys), where stability is observable
+    rl = c.Rng(seed + 1411)
+    for k in range(40 if tier == "quick" else 600):
+        laws.append(long_sort_law(rl, k))
     # a built-in passed by name as the callback behaves like the lambda that calls it (unary built-ins only: a
     # built-in that can take a second argument is also handed the index)
     ETA_LISTS = {"strs": '["ccc", "a", "dddd", "bb", "a"]', "nums": "[3, -1, -4, 1, -5, 9, 2.5]",
